@@ -2,6 +2,7 @@ package props
 
 import (
 	"fmt"
+	"github.com/scottyw/tetromino/gameboy/cpu"
 
 	"verifmc/explore"
 	"verifmc/machine"
@@ -102,12 +103,22 @@ func c16Check(l *explore.Local, _ struct{}, c c16Case) *explore.Fail {
 		l.Eval(1)
 		return nil
 	}
-	if c.Kind == "lcdon" {
+	step := m.Hardware
+	if c.Kind == "lcdon-cpu" {
+		// as "lcdon", with the CPU running too (a JR-to-itself loop in high RAM, which is not affected by the transfer):
+		// what the CPU does every machine cycle besides executing must not disturb a transfer it takes no part in
+		m.Map.Write(0xff80, 0x18)
+		m.Map.Write(0xff81, 0xfe)
+		m.CPU.VSet(cpu.VRegs{SP: 0xfffe, PC: 0xff80})
+		m.I.Disable()
+		step = m.Cycle
+	}
+	if c.Kind == "lcdon" || c.Kind == "lcdon-cpu" {
 		// the display is running: the transfer starts c.At cycles after the LCD was switched on (every phase
 		// of visible and v-blank lines); only the hardware is stepped, so no CPU access can arm the OAM bug
 		m.Map.Write(0xff40, 0x93)
 		for i := 0; i < c.At; i++ {
-			m.Hardware()
+			step()
 		}
 	}
 	src := c16Source(m, c.Page)
@@ -129,7 +140,7 @@ func c16Check(l *explore.Local, _ struct{}, c c16Case) *explore.Fail {
 		return f
 	}
 	for cyc := 1; cyc <= 340; cyc++ {
-		m.Hardware()
+		step()
 		started++
 		l.Trans(1)
 		finished := m.Map.Read(0xfea0) == 0x00
@@ -210,7 +221,7 @@ func c16Check(l *explore.Local, _ struct{}, c c16Case) *explore.Fail {
 func init() {
 	register("C16", "model_checking", func(c *Ctx) {
 		if c.R != nil {
-			c.R.Rule = "on an MBC1+RAM cartridge with position-dependent contents in ROM, VRAM (LCD off), cartridge RAM, WRAM: (basic) every source page 00-F1 x RAM enabled/disabled: FE00, FE9F, FEA0, FEFF read FF after every cycle until completion, completion within 162 cycles, then OAM equals the 160 source bytes (E0-F1 through the WRAM mirror); (restart) a second FF46 write after every cycle 1-162 with 6 x 6 page pairs; (restart-rewrite) the same with the same page, its echo alias or a neighbour as second source and one source byte changed just before the second request: OAM must hold the second source as it was then; (rewrite) one source byte changed after every cycle 0-165 for byte indices {0,1,79,80,158,159}: the byte must hold the value it had when copied (old or new accepted within one cycle of the copy); (idle) after a transfer, and from power-on without one, the guest rewrites OAM and 66,000 (thorough 270,000) machine cycles pass without a request: FEA0 reads 00 in every cycle and OAM keeps the guest's bytes; (lcdon) with the display running, a transfer started at every cycle position of six lines (hardware stepped without the CPU)"
+			c.R.Rule = "on an MBC1+RAM cartridge with position-dependent contents in ROM, VRAM (LCD off), cartridge RAM, WRAM: (basic) every source page 00-F1 x RAM enabled/disabled: FE00, FE9F, FEA0, FEFF read FF after every cycle until completion, completion within 162 cycles, then OAM equals the 160 source bytes (E0-F1 through the WRAM mirror); (restart) a second FF46 write after every cycle 1-162 with 6 x 6 page pairs; (restart-rewrite) the same with the same page, its echo alias or a neighbour as second source and one source byte changed just before the second request: OAM must hold the second source as it was then; (rewrite) one source byte changed after every cycle 0-165 for byte indices {0,1,79,80,158,159}: the byte must hold the value it had when copied (old or new accepted within one cycle of the copy); (idle) after a transfer, and from power-on without one, the guest rewrites OAM and 66,000 (thorough 270,000) machine cycles pass without a request: FEA0 reads 00 in every cycle and OAM keeps the guest's bytes; (lcdon) with the display running, a transfer started at every cycle position of six lines (hardware stepped without the CPU, and with the CPU spinning in high RAM)"
 			c.R.Assumptions = []string{"completion is observed through FEA0 (00 when OAM is accessible, FF during a transfer)", "ROM-only cartridges are not used here (their A0-BF sources belong to C09/C11)"}
 		}
 		pages := []uint8{0x00, 0x80, 0xc0, 0xdf, 0xe0, 0xf1}
@@ -278,6 +289,11 @@ func init() {
 						for o := 0; o < 114; o++ {
 							if !yield(c16Case{Kind: "lcdon", Page: p, RAMEn: true, At: line*114 + o}) {
 								return
+							}
+							if p == 0xc0 || line == 1 {
+								if !yield(c16Case{Kind: "lcdon-cpu", Page: p, RAMEn: true, At: line*114 + o}) {
+									return
+								}
 							}
 						}
 					}
